@@ -729,9 +729,25 @@ struct Engine
                     foreign++;
                 continue;
             }
+            a.kn.depth = depth;
             SP::step(post, cfg, a.kn, op, t.r, pr, t.ob, t.sc, vs);
             if (!t.val_ok)
                 vs.push_back(Viol{P(8), t.val_msg});
+            // C09, "a rejected insert leaves the expiry unchanged": confirm differentially - the same history
+            // without the rejected insert(s) on that key must show a different fate for the key at this clock
+            // step, otherwise the rejected insert is not the cause and the C09 tag is dropped.
+            for (auto& v : vs)
+                if (v.rejkey > 0 && (report & P(9)))
+                {
+                    uint64_t        mask = base.e[v.rejkey].rejmask;
+                    std::vector<Op> h2;
+                    for (size_t i = 0; i < hist.size(); i++)
+                        if (!(i < 64 && ((mask >> i) & 1)))
+                            h2.push_back(hist[i]);
+                    Tr t2 = exec(h2, &op);
+                    if (t2.crashed || t2.sc.e[v.rejkey].present == t.sc.e[v.rejkey].present)
+                        v.props &= ~P(9);
+                }
             if ((int)outcomes.size() < 5000)
             {
                 outcomes.insert(std::string(opk_name(op.k)) + t.r.str());
